@@ -552,6 +552,11 @@ func drive(id, tier string) int {
 		"wall_s":      time.Since(t0).Seconds(),
 		"violations":  len(real),
 	}
+	if sp := ck.Exhaustive[tier]; sp != "" && len(real) == 0 && len(inconclusive) == 0 {
+		cov := ev["coverage"].(map[string]interface{})
+		cov["exhaustive"] = true
+		cov["exhaustive_space"] = sp
+	}
 	os.MkdirAll(filepath.Join(root(), "evidence"), 0o755)
 	{
 		var buf strings.Builder
